@@ -26,6 +26,7 @@ fn dispatch(id: &str, ctx: &Ctx) -> Option<Report> {
         "C13" => mon::c13::run(ctx),
         "C06" => mon::c06::run(ctx),
         "C14" => mon::c14::run(ctx),
+        "C07" => mon::c07::run(ctx),
         _ => return None,
     })
 }
